@@ -1,7 +1,24 @@
 pub mod c01;
 pub mod c02;
+pub mod c03;
+pub mod c04;
+pub mod c11;
+pub mod c12;
+pub mod c13;
+pub mod c14;
+pub mod c18;
 pub mod fixtures;
 
 use crate::run::PropSpec;
 
-pub const ALL: &[&PropSpec] = &[&c01::SPEC, &c02::SPEC];
+pub const ALL: &[&PropSpec] = &[
+	&c01::SPEC,
+	&c02::SPEC,
+	&c03::SPEC,
+	&c04::SPEC,
+	&c11::SPEC,
+	&c12::SPEC,
+	&c13::SPEC,
+	&c14::SPEC,
+	&c18::SPEC,
+];
